@@ -484,6 +484,27 @@ func genFrameRanges(r *Rand, n int, thorough, multi bool, emit func(string)) {
 			emit(fsOp(r, fmt.Sprintf("%d-%dx%d,%d-%d%s%d", a, b, s, c, e, mod, s), fmt.Sprintf("c:%d:%d:x:%d/c:%d:%d:%s:%d", a, b, s, c, e, m2, s)))
 			continue
 		}
+		if i%89 == 23 {
+			// a single frame directly followed by a stepped run that starts exactly one step later
+			// (either direction), optionally behind an unrelated component
+			st := r.Range(2, 9)
+			v := r.Range(-30, 60)
+			d := 1
+			if r.Bool() {
+				d = -1
+			}
+			first := v + d*st
+			last := first + d*(r.Range(1, 6)*st+r.Range(0, st-1))
+			txt := fmt.Sprintf("%d,%d-%dx%d", v, first, last, st)
+			ast := fmt.Sprintf("s:%d/c:%d:%d:x:%d", v, first, last, st)
+			if r.Bool() {
+				p0, p1 := v-d*100, v-d*98
+				txt = fmt.Sprintf("%d-%d,", p0, p1) + txt
+				ast = fmt.Sprintf("r:%d:%d/", p0, p1) + ast
+			}
+			emit(fsOp(r, txt, ast))
+			continue
+		}
 		if i%499 == 498 {
 			// a stepped component, then a long contiguous one (2049-5000 frames) over it
 			a := r.Range(-40, 40)
